@@ -319,6 +319,7 @@ func (c *vfC15RCtx) resolve(ci int, k string) {
 		hi = e.dHi + 10
 	}
 	if now >= hi {
+		c.ghost[k] = e
 		delete(c.m, k)
 		c.tomb[k] = "expired"
 		if e.px {
@@ -335,6 +336,7 @@ func (c *vfC15RCtx) resolve(ci int, k string) {
 	c.part.Add("redis_expiry_window_probes", 1)
 	switch {
 	case r.Kind == ':' && r.Int == 0:
+		c.ghost[k] = e
 		delete(c.m, k)
 		c.tomb[k] = "expired"
 		c.part.Add("redis_expiries_observed", 1)
